@@ -1,6 +1,6 @@
 """C20 — lastIndex protocol and regex-driven string methods (structural clauses)."""
 
-from ..rules import limits, regexrules, termination
+from ..rules import limits, optargs, regexrules, termination
 
 
 def run(ctx, rep):
@@ -14,3 +14,4 @@ def run(ctx, rep):
         "the lastIndex state machine over histories of exec/test/assignment",
         "replacement-template expansion ($$, $&, $n ...) and split/match result values",
     ]
+    optargs.rule_missing_is_undefined(ctx, rep, "C20-R6", lambda f: any(p in f.qual for p in ("_make_regexp_method", "_create_regexp_constructor", "_make_string_method.match", "_make_string_method.search", "_make_string_method.replace", "_make_string_method.split")), "the RegExp methods and constructor and the regex-driven String methods", floor=4)
